@@ -27,6 +27,14 @@
     (success, value); at every task entry the number of running bodies <= the largest max in force so
     far; gate phases block max+2 tasks to saturate the pool deterministically; after stop() returned
     no pool thread is alive and a later submission never runs.
+(c) the REAL `_pool.pool()` team (real limitedWorkerCreator + LockWorker + ThreadWorkers) with a thread
+    factory whose threads never run: deterministic, synchronous.  All sequences of grow(1|2) / do /
+    shrink(1|None) / limit +-1 up to depth 5 for limits 1..3; whenever the pool asks the factory for a
+    thread, the Team's idle + busy count must be below the limit in force
+    (`pool-worker-created-at-limit`).  Plus 18 scripted, synchronised scenarios on the real
+    ThreadPool(0, m): m gated jobs, wait until all workers are idle, startAWorker() x k and
+    adjustPoolsize(min=max): `pool.workers` and the number of live pool threads (counted by a
+    threadFactory wrapper) never exceed max; after lowering max the pool comes down to it.
 Guards: ThreadPool documents that callInThread/stop come from one thread - submitters are joined
 before stop() is called; transient excess after LOWERING max is legitimate (compared against the
 largest max so far); max >= 1 always (max 0 = "no worker can be created"); a stop() or a gate that
@@ -52,7 +60,8 @@ SHARDS = {"quick": 4, "thorough": 16}
 FLOORS = {"explore_states": 5000, "quiescence_checks": 5000, "quit_quiescence_checks": 1000, "tasks_run_in_exploration": 5000,
           "worker_creations_checked": 2000, "stranded_task_cases": 10, "post_quit_probes": 100,
           "pools": 40, "pool_tasks_run": 5000, "pool_onresult": 5000, "pool_stops": 40, "gate_phases": 5, "yields_injected": 2000,
-          "pool_tasks_failed_as_planned": 500, "pool_pre_start_tasks": 50, "pool_tasks_raised_baseexception": 500}
+          "pool_tasks_failed_as_planned": 500, "pool_pre_start_tasks": 50, "pool_tasks_raised_baseexception": 500,
+          "real_creator_cases": 5000, "real_creator_creations_checked": 5000, "scripted_pools": 18, "scripted_limit_checks": 50}
 WATCHDOG_S = {"quick": 900, "thorough": 3000}
 READY = True
 
@@ -649,6 +658,168 @@ def run_pool_case(ctx, case, inj_codes):
         ctx.sample(dict(wit, tasks_run=sum(runs.values()), yields=inj.yields), limit=4)
 
 
+# ------------------------------------------------------------------------------------------- (c)
+CREATOR_OPS = [("grow", 1), ("grow", 2), ("do",), ("shrink", 1), ("shrink", None), ("limit", -1), ("limit", 1)]
+
+
+def explore_real_creator(ctx):
+    """The REAL `twisted._threads._pool.pool()` (real limitedWorkerCreator, LockWorker coordinator,
+    ThreadWorkers) with a thread factory whose threads never run: everything is synchronous and
+    deterministic.  Workers handed a task stay busy, grown workers stay idle.  Every sequence of
+    grow/do/shrink/limit-change up to the depth bound is run for limits 1..3; at every thread the
+    pool asks for, the Team's own count of workers (idle + busy) must be below the limit in force."""
+    import itertools
+
+    from twisted._threads import _pool
+
+    depth = 5 if ctx.size(100, 100) == 100 else 4
+    n = 0
+    for m in (1, 2, 3):
+        for d in range(1, depth + 1):
+            for seq in itertools.product(CREATOR_OPS, repeat=d):
+                n += 1
+                if not ctx.owns(n):
+                    continue
+                run_creator_case(ctx, _pool, m, seq)
+
+
+def run_creator_case(ctx, _pool, m, seq):
+    state = {"limit": m, "created": 0, "team": None, "bad": None}
+
+    class InertThread:
+        def __init__(self, target):
+            self.target = target
+
+        def start(self):
+            pass  # never runs: the worker's queue is simply never consumed
+
+    def factory(target):
+        st = state["team"].statistics()
+        have = st.idleWorkerCount + st.busyWorkerCount
+        ctx.count("real_creator_creations_checked")
+        if have >= state["limit"] and state["bad"] is None:
+            state["bad"] = {"workers_before": have, "idle": st.idleWorkerCount, "busy": st.busyWorkerCount, "limit": state["limit"]}
+        state["created"] += 1
+        return InertThread(target)
+
+    team = state["team"] = _pool.pool(lambda: state["limit"], factory)
+    done = []
+    try:
+        for op in seq:
+            done.append(op)
+            if op[0] == "grow":
+                team.grow(op[1])
+            elif op[0] == "do":
+                team.do(lambda: None)
+            elif op[0] == "shrink":
+                team.shrink(op[1])
+            else:
+                state["limit"] = max(0, min(3, state["limit"] + op[1]))
+            if state["bad"]:
+                break
+        st = team.statistics()
+        team.quit()
+    except BaseException as e:
+        ctx.violation("unexpected-exception", "the real pool() team raised %s: %s" % (type(e).__name__, e), {"initial_limit": m, "ops": done})
+        return
+    ctx.evaluated()
+    ctx.count("real_creator_cases")
+    ctx.distinct(("creator", m, seq))
+    if state["bad"]:
+        ctx.violation("pool-worker-created-at-limit", "the pool's limited worker creator started a thread although the Team already had as many workers "
+                      "(idle + busy) as the limit in force", {"initial_limit": m, "ops": done, "at_creation": state["bad"]})
+
+
+def run_scripted_pool(ctx, m, k, grow_min):
+    """Synchronised scenario on the real ThreadPool(0, m): m gated jobs bring m workers up; once all
+    are idle again, startAWorker() x k and adjustPoolsize(min up to max) must not create workers
+    beyond max; after lowering max the pool must come down to it.  Worker creation is synchronous
+    (LockWorker runs inline), so the limit verdicts do not depend on timing; waiting for 'all idle'
+    polls the public counters and is INCONCLUSIVE on time-out."""
+    from twisted.python import threadpool
+
+    lock = threading.Lock()
+    alive = {"now": 0, "max": 0}
+
+    class CountingThread(threading.Thread):
+        def __init__(self, *a, **kw):
+            kw["daemon"] = True
+            threading.Thread.__init__(self, *a, **kw)
+
+        def run(self):
+            with lock:
+                alive["now"] += 1
+                alive["max"] = max(alive["max"], alive["now"])
+            try:
+                threading.Thread.run(self)
+            finally:
+                with lock:
+                    alive["now"] -= 1
+
+    class Pool(threadpool.ThreadPool):
+        threadFactory = CountingThread
+
+    def wait_for(cond, what):
+        for _ in range(20000):
+            if cond():
+                return True
+            time.sleep(0.0005)
+        ctx.inconclusive("C49 scripted pool m=%d: %s not reached within 10 s" % (m, what))
+        return False
+
+    cfg = {"scripted": True, "max": m, "startAWorker_calls": k, "grow_min_to_max": grow_min}
+    pool = Pool(0, m, name="c49-scripted")
+    pool.start()
+    release = threading.Event()
+    started = []
+    results = []
+    over = []
+
+    def note(where, limit):
+        with lock:
+            a = alive["now"]
+        if pool.workers > limit or a > limit:
+            over.append({"after": where, "pool_workers": pool.workers, "threads_alive": a, "limit": limit})
+
+    try:
+        for j in range(m):
+            pool.callInThreadWithCallback(lambda ok, v: results.append(ok), lambda j=j: (started.append(j), release.wait(30)))
+        if not wait_for(lambda: len(started) == m, "all gated jobs running"):
+            return
+        note("m gated jobs running", m)
+        release.set()
+        if not wait_for(lambda: len(results) == m and len(pool.waiters) == m and not pool.working, "all workers idle"):
+            return
+        for i in range(k):
+            pool.startAWorker()
+            note("startAWorker #%d with %d idle workers at max" % (i + 1, m), m)
+        if grow_min:
+            pool.adjustPoolsize(m, m)
+            note("adjustPoolsize(min=max)", m)
+        ctx.count("scripted_limit_checks", k + 2)
+        if m > 1:
+            pool.adjustPoolsize(0, m - 1)
+            if pool.workers > m - 1:
+                over.append({"after": "adjustPoolsize(max=%d) with all workers idle" % (m - 1), "pool_workers": pool.workers, "limit": m - 1})
+            if wait_for(lambda: alive["now"] <= max(m - 1, pool.workers), "surplus threads ending after max was lowered"):
+                ctx.count("scripted_shrink_checks")
+    finally:
+        release.set()
+        stopper = threading.Thread(target=pool.stop, daemon=True)
+        stopper.start()
+        stopper.join(60)
+        if stopper.is_alive():
+            ctx.inconclusive("C49 scripted pool: stop() did not return within 60 s")
+    ctx.evaluated()
+    ctx.count("scripted_pools")
+    ctx.distinct(("scripted-pool", m, k, grow_min))
+    if over:
+        ctx.violation("pool-exceeds-max-after-explicit-grow", "the pool had more workers / live pool threads than max after startAWorker()/adjustPoolsize "
+                      "with idle workers at the limit", dict(cfg, over=over[:4], threads_ever_alive_at_once=alive["max"]))
+    if len(results) != m or not all(results):
+        ctx.violation("onresult-not-exactly-once", "gated jobs of the scripted pool did not each report success once", dict(cfg, results=results))
+
+
 def pool_codes():
     from twisted._threads import _team, _threadworker, _pool
     from twisted.python import threadpool
@@ -666,6 +837,14 @@ def run(ctx):
     t0 = time.time()
     explore_team(ctx)
     ctx.maxi("explore_wall_s", round(time.time() - t0, 1))
+    explore_real_creator(ctx)
+    k = 0
+    for m in (1, 2, 3):
+        for n_start in (1, 2, 3):
+            for grow_min in (False, True):
+                k += 1
+                if ctx.owns(k):
+                    run_scripted_pool(ctx, m, n_start, grow_min)
     codes = pool_codes()
     for i in ctx.cases(200, 5000):
         run_pool_case(ctx, i, codes)
@@ -675,7 +854,13 @@ def run(ctx):
 
 def replay(ctx, w):
     x = w["witness"]
-    if "history" in x:
+    if "ops" in x and "initial_limit" in x:
+        from twisted._threads import _pool
+
+        run_creator_case(ctx, _pool, x["initial_limit"], [tuple(o) for o in x["ops"]])
+    elif x.get("scripted"):
+        run_scripted_pool(ctx, x["max"], x["startAWorker_calls"], x["grow_min_to_max"])
+    elif "history" in x:
         replay_team(ctx, x["history"])
     else:
         run_pool_case(ctx, x["case"], pool_codes())
